@@ -758,7 +758,8 @@ func TestC05(t *testing.T) {
 			kit.NonTrivial(fmt.Sprintf("stress|%s|%d|%v", cfg.Backend, cfg.Workers, cfg.Reloads))
 		}
 	}))
-	kit.SetRapid(kit.N(kit.Pick(1600, 40000)*scalePct()/100, 1))
+	nHist := kit.Pick(1600, 24000) * scalePct() / 100
+	kit.SetRapid(kit.N(nHist, nHist))
 	rapid.Check(t, kit.Prop("C05", func(t *rapid.T) {
 		b := rapid.SampledFrom(kit.AllBackends).Draw(t, "backend")
 		steps := genC05Steps(t)
